@@ -16,7 +16,7 @@ pub fn def() -> CheckDef {
         level: "exploration",
         assumptions: &["monotone simulated clock", "the live side is read through hook H1 without loading from the store", "no storage errors are injected"],
         probes: &["probe.env_written_by_script", "probe.ancestor_variable_written", "probe.error_raised", "probe.catch_revive", "probe.else_branch_skipped", "probe.sqlite", "probe.generated_acts"],
-        quick_cases: 2500,
+        quick_cases: 4000,
         no_shrink: &[],
     }
 }
@@ -30,7 +30,7 @@ fn gen_scenario(rng: &mut vsim::rng::Rng) -> Scenario {
         dup: false,
         generators: rng.below(3) == 0,
         hooks: false,
-        outputs: true,
+        outputs: true, drop_outputs: true
     };
     let mut sc = gen_lifecycle(rng, &opts);
     // writers: set / code acts on the names the workflow declares, env at start and from scripts
